@@ -927,7 +927,13 @@ func (c *cluster) round(seed int64, r int) {
 	nf := 2 + rng.Intn(2)
 	for f := 0; f < nf; f++ {
 		time.Sleep(time.Duration(1000+rng.Intn(2500)) * time.Millisecond)
-		switch rng.Intn(6) {
+		kind := rng.Intn(6)
+		if f == 0 {
+			// every round has a leader failure under load: for a moment the followers still
+			// forward to the dead leader
+			kind = 0
+		}
+		switch kind {
 		case 0, 1: // kill the leader, restart it later
 			if l := c.leader(); l != nil {
 				l.signal(syscall.SIGKILL)
